@@ -207,8 +207,80 @@ def relmc_check(pid, tier):
     return out.finish()
 
 
+def run_parts(out, parts, tier):
+    """parts: list of (label, cfg, harness, args).  Runs each, merges findings; returns per-part results."""
+    res = {}
+    for label, cfg, harness, args in parts:
+        exe = prep(cfg, harness)
+        a = list(args) + ["--tier", tier, "--jobs", vbuild.JOBS]
+        if tier != "quick":
+            a += ["--deadline_s", max(60, int(DEADLINE_S / max(1, len(parts))))]
+        r = run_harness(exe, a, tmpfile(out.pid.lower() + "_" + label.replace("/", "_")))
+        out.add_findings(r["findings"], harness, cfg, exe=exe, args=list(args) + ["--tier", tier])
+        res[label] = r
+    return res
+
+
+def c16(tier):
+    out = Outcome("C16", tier, "exploration")
+    parts = [("tokens/rel", "rel", "lexmc", ["--mode", "tokens"]), ("parse/rel", "rel", "lexmc", ["--mode", "parse"]),
+             ("tokens/dbgn", "dbgn", "lexmc", ["--mode", "tokens"]), ("parse/dbgn", "dbgn", "lexmc", ["--mode", "parse"])]
+    res = run_parts(out, parts, tier)
+    ev = sum(r["counters"].get("cases", 0) for r in res.values())
+    dn = res["tokens/rel"]["distinct"].get("token_streams", 0) + res["parse/rel"]["distinct"].get("asts", 0)
+    out.coverage = {
+        "evaluations": ev, "distinct_nontrivial": dn,
+        "rule": "(a) tokens: the real lexer against a reference lexer written from the token table: every keyword with its prefixes, "
+                "extensions, capitalisation and following punctuation; number, string and comment forms (incl. '**/', nested openers, "
+                "CR/LF); and EVERY sequence of <=3 (thorough 4) tokens of a 54-spelling token alphabet joined by ' ' and by nothing "
+                "(thorough: also newline, '/*c*/', ' //c\\n'); oracle = identical symbol sequence and payloads. (b) parse: EVERY "
+                "expression tree of depth <=2 over leaves {a, 2, 0.5, o.g, true}, unary + - !, the 14 binary/n-ary operators (n<=3), casts, "
+                "calls and constructor calls, rendered with minimal parentheses (precedence == != < relational/logical < + - < * / < "
+                "unary, left-to-right) and fully parenthesised, in 14 placements (local initialiser, top-level and block statement, "
+                "disjunct, fact/goal argument, field initialiser, constructor init-list and body, predicate body, void-method body, "
+                "return, assignment, disjunct cost); oracle = the AST the real parser builds (observed through its virtual node "
+                "factories) equals the tree. distinct_nontrivial = distinct expected token streams + distinct expected ASTs. "
+                "Evaluation of expressions (values, truth tables) is checked at program level by the E3 part of this property when built.",
+        "samples": res["tokens/rel"]["samples"][:3] + res["parse/rel"]["samples"][:3],
+        "exhaustive": all(r["exhaustive"] for r in res.values()),
+        "parts": {k: {"counters": r["counters"], "distinct": r["distinct"], "exhaustive": r["exhaustive"], "wall_ms": r.get("wall_ms")} for k, r in res.items()},
+    }
+    out.assumptions = ["the reference lexer/grammar encode the language as described by riddle_lexer.h's token table and the precedence "
+                       "climbing levels of the parser's design (DESIGN.md appendix A); 'this' is accepted as an identifier",
+                       "a parenthesised single identifier is outside the alphabet (ambiguous with the cast syntax)"]
+    return out.finish()
+
+
+def c18(tier):
+    out = Outcome("C18", tier, "fault_enumeration")
+    parts = [("bytes/rel", "rel", "lexmc", ["--mode", "bytes"]), ("prefixes/rel", "rel", "lexmc", ["--mode", "prefixes", "--repo", vbuild.REPO]),
+             ("bytes/dbg", "dbg", "lexmc", ["--mode", "bytes"]), ("prefixes/dbg", "dbg", "lexmc", ["--mode", "prefixes", "--repo", vbuild.REPO]),
+             ("parse/dbg", "dbg", "lexmc", ["--mode", "parse"]), ("tokens/dbg", "dbg", "lexmc", ["--mode", "tokens"])]
+    res = run_parts(out, parts, tier)
+    ev = sum(r["counters"].get("cases", 0) for r in res.values())
+    acc = sum(r["counters"].get("accepted", 0) for r in res.values())
+    rej = sum(r["counters"].get("rejected", 0) for r in res.values())
+    out.coverage = {
+        "evaluations": ev, "distinct_nontrivial": res["bytes/rel"]["counters"].get("cases", 0) + res["prefixes/rel"]["counters"].get("cases", 0),
+        "rule": "fault model = arbitrary / truncated input text: EVERY byte string of length <=5 (thorough 6) over the 14-symbol alphabet "
+                "{\" / * \\ LF a 1 . SP = ( { 0xFF e} (one representative per branch of lexer::next) plus oversized numerals, and EVERY "
+                "prefix (thorough; quick: every 7th beyond the first 600 bytes) of every file under examples/, through lexer+parser, in the "
+                "Release build and in the Debug+ASan+UBSan build; plus the valid token sequences and expression programs of C16 under the "
+                "sanitizers. Allowed outcomes: accepted, or a std::exception, within 0.4 s (confirmed alone with 2 s); anything else "
+                "(signal, std::terminate, sanitizer report, other exception, hang, >1 GB) is a violation. distinct_nontrivial = distinct "
+                "input texts (all are distinct by construction).",
+        "samples": res["bytes/rel"]["samples"][:3] + res["prefixes/rel"]["samples"][:3],
+        "exhaustive": all(r["exhaustive"] for r in res.values()),
+        "accepted": acc, "rejected": rej,
+        "parts": {k: {"counters": r["counters"], "exhaustive": r["exhaustive"], "wall_ms": r.get("wall_ms")} for k, r in res.items()},
+    }
+    out.assumptions = ["AddressSanitizer/UBSan (g++ 12) report what they detect; leak checking is off for rejected inputs (the reader does not free the tokens of a rejected text)",
+                       "network API sequences and solver runs under the sanitizers are added to this property as their engines are built"]
+    return out.finish()
+
+
 # ------------------------------------------------------------------------------------------------
-PROPS = {"C15": c15, "C13": c13, "C11": lambda tier: relmc_check("C11", tier), "C12": lambda tier: relmc_check("C12", tier)}
+PROPS = {"C16": c16, "C18": c18, "C15": c15, "C13": c13, "C11": lambda tier: relmc_check("C11", tier), "C12": lambda tier: relmc_check("C12", tier)}
 for _p in ("C07", "C08", "C09", "C10", "C14"):
     PROPS[_p] = (lambda pid: (lambda tier: netmc_check(pid, tier)))(_p)
 
@@ -217,7 +289,7 @@ def setup():
     t0 = time.time()
     for cfg in ["rel", "dbgn", "dbg"]:
         vbuild.ensure_tree(cfg, quiet=False)
-    for cfg, h in [("rel", "arith_enum"), ("dbgn", "arith_enum"), ("dbg", "arith_enum"), ("rel", "reify"), ("dbgn", "reify"), ("rel", "netmc"), ("dbgn", "netmc"), ("rel", "relmc"), ("dbgn", "relmc")]:
+    for cfg, h in [("rel", "arith_enum"), ("dbgn", "arith_enum"), ("dbg", "arith_enum"), ("rel", "reify"), ("dbgn", "reify"), ("rel", "netmc"), ("dbgn", "netmc"), ("rel", "relmc"), ("dbgn", "relmc"), ("rel", "lexmc"), ("dbgn", "lexmc"), ("dbg", "lexmc")]:
         vbuild.ensure_harness(cfg, h, quiet=False)
     print("setup done in %.0fs" % (time.time() - t0))
     return 0
